@@ -6,10 +6,10 @@ import json, os
 from vlib import core
 
 PKG = "./lib/collection"
-OVERLAY = {"lib/collection/zz_verif_c17_test.go": "c17/cache_test.go"}
-if os.path.exists(os.path.join(core.HARNESS, "c17/take_test.go")):
-    OVERLAY["lib/collection/zz_verif_c17conc_test.go"] = "c17/take_test.go"
+OVERLAY = {"lib/collection/zz_verif_c17_test.go": "c17/cache_test.go",
+           "lib/collection/zz_verif_c17conc_test.go": "c17/take_test.go"}
 W = 6
+SHARDS = 12
 
 META = dict(
     text="Model-based replay plus trace validation. TLC model-checks the abstract cache (spec/MemCache.tla: size bound, "
@@ -79,7 +79,7 @@ def plans(ctx):
         P.append(("e20d3", dict(keys=one, limit=0, expire=20, maxops=3, pre0="{0,299}", pre="{0,19,20}", kinds=nolru)))
         P.append(("e20k2", dict(keys=two, limit=0, expire=20, maxops=2, pre0="{0,299}", pre="{0,1,19,20}", jit="{1,999}", kinds=nolru)))
         # below and beyond one revolution of the 300-slot wheel
-        P.append(("e2", dict(keys=two, limit=0, expire=2, expires="{3}", maxops=3, pre0="{0,298}", pre="{0,1,2}",
+        P.append(("e2", dict(keys=one, limit=0, expire=2, expires="{3}", maxops=3, pre0="{0,298}", pre="{0,1,2}",
                              jit="{1,999}", kinds='{"set","setx","get","takeok"}', tail=301)))
         P.append(("e310", dict(keys=one, limit=0, expire=310, expires="{20}", maxops=2, pre0="{0,149,299}",
                                pre="{0,1,5,294,295,300,310}", jit="{1,999}", kinds='{"set","setx","get"}', tail=301)))
@@ -94,17 +94,24 @@ def plans(ctx):
         S.append(("sim0", dict(keys=two, limit=0, expire=20, expires="{2,310}", maxops=12, pre0="{0,1,149,298,299}",
                                pre="{0,1,2,18,19,20,21,150,294,300}", kinds=ALL, tail=301), 300, 14))
     else:
-        P.append(("e20", dict(keys=one, limit=0, expire=20, maxops=4, pre0="{0,1,149,298,299}", pre="{0,1,18,19,20,21}", kinds=nolru)))
-        P.append(("e20k2", dict(keys=two, limit=0, expire=20, maxops=3, pre0="{0,299}", pre="{0,1,18,19,20}", kinds=nolru)))
-        P.append(("e2", dict(keys=two, limit=0, expire=2, expires="{3}", maxops=4, pre0="{0,298}", pre="{0,1,2}",
+        P.append(("e20", dict(keys=one, limit=0, expire=20, maxops=3, pre0="{0,149,299}", pre="{0,1,19,20,21}", kinds=nolru)))
+        P.append(("e20d4", dict(keys=one, limit=0, expire=20, maxops=4, pre0="{0,299}", pre="{0,19,20}", jit="{1,999}",
+                                kinds='{"set","get","del","takeok"}')))
+        P.append(("e20k2", dict(keys=two, limit=0, expire=20, maxops=3, pre0="{0,299}", pre="{0,19,20}", jit="{1,999}", kinds=nolru)))
+        P.append(("e2", dict(keys=two, limit=0, expire=2, expires="{3}", maxops=3, pre0="{0,298}", pre="{0,1,2}",
                              jit="{1,999}", kinds='{"set","setx","get","takeok"}', tail=301)))
+        P.append(("e2d4", dict(keys=one, limit=0, expire=2, expires="{3}", maxops=4, pre0="{0,298}", pre="{0,1,2}",
+                               jit="{1,999}", kinds='{"set","setx","get"}', tail=301)))
         P.append(("e310", dict(keys=one, limit=0, expire=310, expires="{20}", maxops=3, pre0="{0,149,299}",
                                pre="{0,1,5,294,295,300,310}", jit="{1,999}", kinds='{"set","setx","get"}', tail=301)))
         P.append(("e640", dict(keys=one, limit=0, expire=640, expires="{310}", maxops=2, pre0="{0,299}",
                                pre="{0,1,299,300,301,608,640}", jit="{1,999}", kinds='{"set","setx","get"}', tail=301)))
-        P.append(("lru2", dict(keys=three, limit=2, expire=20, maxops=5, pre0="{0}", pre="{0}", jit="{499}", kinds=nolru, tail=2)))
-        P.append(("lru1", dict(keys=two, limit=1, expire=20, maxops=6, pre0="{0}", pre="{0}", jit="{499}", kinds=nolru, tail=2)))
-        P.append(("lru2t", dict(keys=three, limit=2, expire=20, maxops=4, pre0="{0}", pre="{0,19}", jit="{1,999}",
+        P.append(("lru2", dict(keys=three, limit=2, expire=20, maxops=5, pre0="{0}", pre="{0}", jit="{499}",
+                               kinds='{"set","get","takeok"}', tail=2)))
+        P.append(("lru2e", dict(keys=three, limit=2, expire=20, maxops=4, pre0="{0}", pre="{0}", jit="{499}", kinds=nolru, tail=2)))
+        P.append(("lru1", dict(keys=two, limit=1, expire=20, maxops=5, pre0="{0}", pre="{0}", jit="{499}",
+                               kinds='{"set","get","del","takeok"}', tail=2)))
+        P.append(("lru2t", dict(keys=three, limit=2, expire=20, maxops=4, pre0="{0}", pre="{0,19}", jit="{999}",
                                 kinds='{"set","get","takeok"}', tail=301)))
         S.append(("sim", dict(keys=three, limit=2, expire=20, expires="{2,310}", maxops=20, pre0="{0,1,149,298,299}",
                               pre="{0,1,2,18,19,20,21,150}", kinds=ALL, tail=301), 6000, 22))
@@ -130,55 +137,33 @@ def run(ctx):
         path, cnt = ctx.write_cases(name + ".ndjson", cases)
         ctx.samples += core.sample_of(cases, 1)
         ctx.replay(PKG, OVERLAY, "^TestVerifC17$", path, label=name, env=dict(VERIF_EXPIRE=kw["expire"], VERIF_LIMIT=kw["limit"]),
-                   shards=16, binp=binp)
+                   shards=SHARDS, gomaxprocs=2, binp=binp)
     for name, kw, num, depth in S:
         cases = gen(ctx, name, simulate=num, depth=depth, **kw)
         path, cnt = ctx.write_cases(name + ".ndjson", cases)
         ctx.samples += core.sample_of(cases, 1)
         ctx.replay(PKG, OVERLAY, "^TestVerifC17$", path, label=name, env=dict(VERIF_EXPIRE=kw["expire"], VERIF_LIMIT=kw["limit"]),
-                   shards=16, binp=binp)
-    if len(OVERLAY) > 1:
-        conc(ctx, binp)
+                   shards=SHARDS, gomaxprocs=2, binp=binp)
+    conc(ctx, binp)
 
 
 def conc(ctx, binp):
     """Concurrent Take callers: record call/fetch traces on the real cache, validate them with TLC."""
-    rounds = 40 if ctx.quick else 400
-    tr = os.path.join(ctx.build, "take-trace.ndjson")
-    for gmp in ([4] if ctx.quick else [1, 4, 16]):
+    rounds = 60 if ctx.quick else 600
+    for gmp, procs in ([(4, 5)] if ctx.quick else [(1, 4), (4, 6), (16, 8)]):
         lab = "take-g%d" % gmp
+        tr = os.path.join(ctx.build, lab + ".ndjson")
         ctx.replay(PKG, OVERLAY, "^TestVerifC17Take$", None, label=lab, gomaxprocs=gmp, binp=binp,
-                   env=dict(VERIF_TRACE=tr, VERIF_ROUNDS=rounds))
-        take_validate(ctx, tr, lab)
-
-
-def take_validate(ctx, tr, lab):
-    lines = [l for l in open(tr).read().splitlines() if l.strip()]
-    n_hist = sum(1 for l in lines if '"e":"reset"' in l)
-    cfg = core.render_cfg(spec="Spec", invariants=["FlightsDisjoint"], constraints=[], postcondition="Accepted")
-    r = ctx.tlc("MemCacheTake", cfg, name="trace-" + lab, workers=1, files={"trace.ndjson": tr}, timeout=900,
-                allow_violation=True, want_json=False)
-    hw = r.registers.get("hw")
-    if hw is None:
-        raise core.Infra("trace validation: no high-water mark in TLC output\n" + r.trace_text[:2000])
-    if hw >= len(lines) and not r.violated:
-        ctx.traces += n_hist
-        ctx.notes[lab + ".events"] = len(lines)
-        return
-    # the event at index hw (0-based) is the first one no behaviour of the specification explains
-    bad = min(hw, len(lines) - 1)
-    start = max(i for i in range(bad + 1) if '"e":"reset"' in lines[i])
-    end = min([i for i in range(start + 1, len(lines)) if '"e":"reset"' in lines[i]] + [len(lines)])
-    ev = json.loads(lines[bad])
-    ctx.disagree("C17:take-trace:%s" % ev.get("e"), "recorded concurrent-Take history rejected at event %d of its history: %s (%s)"
-                 % (bad - start, lines[bad], r.violated), case="\n".join(lines[start:end]), step=bad - start, source="trace")
+                   env=dict(VERIF_TRACE=tr, VERIF_ROUNDS=rounds, VERIF_PROCS=procs))
+        ctx.validate_traces("MemCacheTake", tr, key_prefix="C17:take", invariants=["FlightsDisjoint"], name="trace-" + lab,
+                            timeout=1200)
 
 
 def replay(ctx, rp):
     if rp.get("source") == "trace":
-        tr = os.path.join(ctx.build, "take-trace.ndjson")
-        open(tr, "w").write(rp["case"] + "\n")
-        take_validate(ctx, tr, "replay")
+        tr = os.path.join(ctx.build, "take-replay.ndjson")
+        open(tr, "w").write("\n".join(json.loads(rp["case"])) + "\n")
+        ctx.validate_traces("MemCacheTake", tr, key_prefix="C17:take", invariants=["FlightsDisjoint"], name="trace-replay")
         return
     path, _ = ctx.write_cases("replay.ndjson", [rp["case"]])
     msg = rp.get("msg") or ""
